@@ -40,6 +40,8 @@ impl OperationControl for CharClass {
         matcher: &'b crate::re_matcher::ReMatcher,
         position: usize,
     ) -> Box<dyn Iterator<Item = usize> + 'b> {
+        #[cfg(regexml_verif)]
+        crate::verif::tick();
         let search = &matcher.search;
         if position < search.len() && self.character_class.contains(search[position]) {
             Box::new(std::iter::once(position + 1))
